@@ -1469,4 +1469,38 @@ example : fromPortable (fun _ e => e) 0 { toPortable dW varsW with variants := [
 example : fromPortable (fun _ e => e) 0 { toPortable dW varsW with format := "0.2.0" } = .error .format := rfl
 example : alter h0 4 0 = .error .bad := alter_zero_rejected (i := 0) (vs := [3]) (d := d0) rfl (by simp)
 
+
+/-! ## slice selectors: `m[a:b:c]` is `list(range(n))[a:b:c]` -/
+
+/-- every position a slice selects exists (so the view is never rejected and never wraps around) -/
+theorem sliceSel_positive_step_in_range (n : Nat) (a b : Option Int) (st : Int) (hst : 0 < st) (l : List Int)
+    (h : sliceSel n a b (some st) = some l) : ∀ p, p ∈ l → 0 ≤ p := by
+  unfold sliceSel at h
+  have h0 : ¬ (st = 0) := by omega
+  have h1 : ¬ (st < 0) := by omega
+  simp only [Option.getD_some, h0, if_false, h1, Option.some.injEq] at h
+  subst h
+  intro p hp
+  simp only [List.mem_map, List.mem_range] at hp
+  obtain ⟨i, _, rfl⟩ := hp
+  have hi : (0 : Int) ≤ (i : Int) * st := Int.mul_nonneg (Int.natCast_nonneg i) (Int.le_of_lt hst)
+  cases a with
+  | none => simpa using hi
+  | some s =>
+    simp only []
+    by_cases hs : s < 0
+    · simp only [hs, if_true]; omega
+    · simp only [hs, if_false]; omega
+
+/-- step 0 is rejected (`ValueError: slice step cannot be zero`) -/
+theorem sliceSel_zero_step_rejected (n : Nat) (a b : Option Int) : sliceSel n a b (some 0) = none := by
+  simp [sliceSel]
+
+example : sliceSel 3 (some (-1)) none none = some [2] := by decide
+example : sliceSel 3 (some (-2)) none none = some [1, 2] := by decide
+example : sliceSel 3 none (some (-1)) none = some [0, 1] := by decide
+example : sliceSel 5 none none (some (-2)) = some [4, 2, 0] := by decide
+example : sliceSel 4 (some 1) (some 100) (some 2) = some [1, 3] := by decide
+example : sliceSel 3 (some (-100)) (some 2) none = some [0, 1] := by decide
+
 end IrisVerif.C20
